@@ -137,8 +137,13 @@ Set_pop(Bucket* self, PyObject* args)
 
     key = Bucket_minKey(self, args); /* reuse existing empty tuple */
     if (!key) {
-        PyErr_Clear();
-        PyErr_SetString(PyExc_KeyError, "pop(): empty bucket.");
+        /* minKey() says ValueError for an empty container; anything else
+        * (the container could not be loaded, out of memory) is passed on.
+        */
+        if (PyErr_ExceptionMatches(PyExc_ValueError)) {
+            PyErr_Clear();
+            PyErr_SetString(PyExc_KeyError, "pop(): empty bucket.");
+        }
         return NULL;
     }
 
